@@ -164,6 +164,10 @@ pub fn scene(k: usize) -> Scene {
             s.clouds.push(cloud("c0", vec![b("cartesianX", 15), b("cartesianY", 15), b("cartesianZ", 15), b("cartesianInvalidState", 2)], 1, 21));
             let sc = |n: &str| rec(n, Ty::Scaled { min: -3, max: 4, scale: 0.5, offset: 1.0 });
             s.clouds.push(cloud("c1", vec![sc("cartesianX"), sc("cartesianY"), sc("cartesianZ"), b("isIntensityInvalid", 1), rec("intensity", Ty::Int { min: 0, max: 3 })], 3, 22));
+            // single precision limits with odd mantissas (a decimal beside their rounding midpoint
+            // must still be read as exactly these values)
+            let odd = Ty::F32 { min: Some(f32::from_bits(0x3F80_0001)), max: Some(f32::from_bits(0x4049_0FDB)) };
+            s.clouds.push(cloud("c2", vec![rec("cartesianX", F32), rec("cartesianY", F32), rec("cartesianZ", F32), rec("timeStamp", odd)], 2, 23));
             s
         }
         _ => {
